@@ -46,6 +46,7 @@ scanIsContinued(String line)
 
   Bool	foundSemicolon = false;
   Bool	doubleEqualIsLast = false;
+  Bool	escapedNewline = false;
   Length	len, i;
 
   if (!line) return (unmatchedBraces > 0);
@@ -61,6 +62,8 @@ scanIsContinued(String line)
   for (i = 0; i < len; i++)
     if (sawEscape) {
       sawEscape = false;
+      /* an escaped newline joins the next line to this one */
+      if (line[i] == '\n') escapedNewline = true;
     }
     else if (inStringLiteral) {
       /* hunt for end of string */
@@ -138,6 +141,8 @@ scanIsContinued(String line)
     return false;
   }
 	
+  if (escapedNewline) return true;
+
   if (topLine && doubleEqualIsLast) isDefining = true;
 
   if (isDefining) return true;
